@@ -46,7 +46,8 @@ def declaration_like(repo, fi):
     methods of the same class hierarchy -- the mechanics a declaration method was split into"""
     if fi.name in DECLARATION_METHODS:
         return True
-    key = (id(repo), fi.fq)
+    _DECL_CACHE = repo.__dict__.setdefault('_decl_cache', {})
+    key = fi.fq
     if key in _DECL_CACHE:
         return _DECL_CACHE[key]
     _DECL_CACHE[key] = False
